@@ -20,16 +20,17 @@ import (
 )
 
 type caseT struct {
-	Grammar  string           `json:"grammar"`
-	G        *gramenum.Gram   `json:"g"`
-	Inputs   []gramenum.Input `json:"inputs"`
-	SameAttr bool             `json:"same_attr"`
-	Optimize bool             `json:"optimize"`
-	Input    int              `json:"input"`
-	W        string           `json:"w"`
-	Marker   int              `json:"marker"` // rule that carries a trailing state marker, -1 = none
-	Prec     []precDecl       `json:"prec,omitempty"`
-	L        int              `json:"l,omitempty"`
+	Grammar   string           `json:"grammar"`
+	G         *gramenum.Gram   `json:"g"`
+	Inputs    []gramenum.Input `json:"inputs"`
+	SameAttr  bool             `json:"same_attr"`
+	Optimize  bool             `json:"optimize"`
+	Input     int              `json:"input"`
+	W         string           `json:"w"`
+	Marker    int              `json:"marker"` // rule that carries a trailing state marker, -1 = none
+	Prec      []precDecl       `json:"prec,omitempty"`
+	L         int              `json:"l,omitempty"`
+	MarkerPos int              `json:"marker_pos,omitempty"` // position of the marker inside the rule + 1 (0 = at the end)
 }
 
 type precDecl struct {
@@ -63,7 +64,7 @@ func configs(g *gramenum.Gram) [][]gramenum.Input {
 // and rule lengths used for rule equivalence must not count them).
 var markerRule = -1
 
-func buildM(g *gramenum.Gram, inputs []gramenum.Input, sameAttr, minimize, optimize bool, marker int, prec []precDecl) (*lalr.Grammar, *lalr.Tables, error) {
+func buildM(g *gramenum.Gram, inputs []gramenum.Input, sameAttr, minimize, optimize bool, marker int, prec []precDecl, markerPos ...int) (*lalr.Grammar, *lalr.Tables, error) {
 	attrVariant := 0
 	if marker <= -2 { // encoded: -2 = attribute variant 2 without marker
 		attrVariant = 2
@@ -71,7 +72,11 @@ func buildM(g *gramenum.Gram, inputs []gramenum.Input, sameAttr, minimize, optim
 	}
 	lg := g.ToLalr(inputs)
 	if marker >= 0 {
-		lg = g.WithMarker(inputs, marker, len(g.Rules[marker].RHS))
+		pos := len(g.Rules[marker].RHS)
+		if len(markerPos) > 0 && markerPos[0] > 0 {
+			pos = markerPos[0] - 1
+		}
+		lg = g.WithMarker(inputs, marker, pos)
 	}
 	if sameAttr {
 		for i := range lg.Rules {
@@ -175,58 +180,73 @@ func run(c *core.Ctx) {
 	}
 	c.Set("L", L)
 	c.Rule("every rule set of the scope (conflicting grammars included, as with %expect) x 4-8 input configurations (several inputs, no-eoi, duplicated no-eoi inputs = synthetic lookahead inputs) x rule attributes {all distinct, all equal, one action + alternating node types} x optimizeTables{off,on}, plus the wide-alphabet family (33-36 terminals, symbols 30-32 apart), the long-rule family (48 grammars, rule length 3..10, strings up to length 11) and the operator family (25 expression grammars x 28 precedence declarations incl. %nonassoc): MinimizeDFA off vs on started at every input index, every token string <= L; non-trivial = compile where minimization actually merged states; states = distinct lock-step configurations (input, trace prefix), transitions = parser steps compared")
-	var merged, states, transitions int64
+	var merged, states, transitions, markerChecks int64
 	processX := func(g *gramenum.Gram, L int, prec []precDecl, cfgs [][]gramenum.Input) {
 		for _, inputs := range cfgs {
 			for _, same := range []bool{false, true} {
 				for _, optz := range []bool{false, true} {
-				for marker := -2; marker < len(g.Rules); marker++ {
-					if marker >= 0 && (!same || optz) {
-						continue // marker variants: equal rule attributes only (that is where lengths decide the classes)
-					}
-					if marker == -2 && (same || optz) {
-						continue // attribute variant "same non-zero action, alternating node type": once
-					}
-					lg, t0, e0 := buildM(g, inputs, same, false, optz, marker, prec)
-					_, t1, e1 := buildM(g, inputs, same, true, optz, marker, prec)
-					base := caseT{g.String(), g, inputs, same, optz, 0, "", marker, prec, L}
-					if e0 != nil || e1 != nil {
-						err := e0
-						if err == nil {
-							err = e1
+					for marker := -2; marker < len(g.Rules); marker++ {
+						if marker >= 0 && (!same || optz) {
+							continue // marker variants: equal rule attributes only (that is where lengths decide the classes)
 						}
-						c.Violate("panic:"+core.PanicSite(err), err.Error()+" :: "+g.String(), base)
-						continue
-					}
-					c.Eval(1)
-					if t1.NumStates < t0.NumStates && marker == -1 {
-						atomic.AddInt64(&merged, 1)
-						c.Outcome("states-merged", 1)
-					} else {
-						c.Outcome("nothing-to-merge", 1)
-						if optz {
-							continue // identical tables; the optimized decode is C05's business
+						if marker == -2 && (same || optz) {
+							continue // attribute variant "same non-zero action, alternating node type": once
 						}
-					}
-					m0 := &tabinterp.Machine{T: t0, Terms: g.T + 1, Optimized: optz}
-					m1 := &tabinterp.Machine{T: t1, Terms: g.T + 1, Optimized: optz}
-					seen := map[string]bool{}
-					var steps int64
-					for in := range inputs {
-						gramenum.AllStrings(g.T, L, func(w string) {
-							key, msg, n := lockstep(lg, m0, m1, in, w)
-							steps += int64(n)
-							seen[fmt.Sprint(in, w)] = true
-							if key != "" {
-								k := base
-								k.Input, k.W = in, w
-								c.Violate(key, msg+" :: "+g.String()+fmt.Sprintf(" inputs=%v sameAttr=%v optimize=%v markerAfterRule=%d prec=%v", inputs, same, optz, marker, prec), k)
+						positions := []int{0}
+						if marker >= 0 {
+							for q := 0; q < len(g.Rules[marker].RHS); q++ {
+								positions = append(positions, q+1) // marker before symbol q
 							}
-						})
+						}
+						for _, mpos := range positions {
+							lg, t0, e0 := buildM(g, inputs, same, false, optz, marker, prec, mpos)
+							_, t1, e1 := buildM(g, inputs, same, true, optz, marker, prec, mpos)
+							base := caseT{g.String(), g, inputs, same, optz, 0, "", marker, prec, L, mpos}
+							if e0 != nil || e1 != nil {
+								err := e0
+								if err == nil {
+									err = e1
+								}
+								c.Violate("panic:"+core.PanicSite(err), err.Error()+" :: "+g.String(), base)
+								continue
+							}
+							c.Eval(1)
+							if t1.NumStates < t0.NumStates && marker == -1 {
+								atomic.AddInt64(&merged, 1)
+								c.Outcome("states-merged", 1)
+							} else {
+								c.Outcome("nothing-to-merge", 1)
+								if optz {
+									continue // identical tables; the optimized decode is C05's business
+								}
+							}
+							m0 := &tabinterp.Machine{T: t0, Terms: g.T + 1, Optimized: optz}
+							m1 := &tabinterp.Machine{T: t1, Terms: g.T + 1, Optimized: optz}
+							seen := map[string]bool{}
+							var steps int64
+							for in := range inputs {
+								gramenum.AllStrings(g.T, L, func(w string) {
+									key, msg, n := lockstep(lg, m0, m1, in, w)
+									steps += int64(n)
+									seen[fmt.Sprint(in, w)] = true
+									if key != "" {
+										k := base
+										k.Input, k.W = in, w
+										c.Violate(key, msg+" :: "+g.String()+fmt.Sprintf(" inputs=%v sameAttr=%v optimize=%v markerAfterRule=%d prec=%v", inputs, same, optz, marker, prec), k)
+									}
+								})
+							}
+							atomic.AddInt64(&states, int64(len(seen)))
+							atomic.AddInt64(&transitions, steps)
+							if marker >= 0 {
+								if msg := markerMismatch(t0, t1, g.T+1+g.N, len(inputs)); msg != "" {
+									k := base
+									c.Violate("marker-membership", msg+" :: "+g.String()+fmt.Sprintf(" inputs=%v markerInRule=%d markerPos=%d", inputs, marker, mpos-1), k)
+								}
+								atomic.AddInt64(&markerChecks, 1)
+							}
+						}
 					}
-					atomic.AddInt64(&states, int64(len(seen)))
-					atomic.AddInt64(&transitions, steps)
-				}
 				}
 			}
 		}
@@ -319,6 +339,7 @@ func run(c *core.Ctx) {
 		}
 		c.Add("grammars", int64(n))
 	}
+	c.Set("marker_membership_checks", markerChecks)
 	c.Nontrivial(merged)
 	c.States(states)
 	c.Transitions(transitions)
@@ -445,18 +466,70 @@ func precSpaces() [][]precDecl {
 	return out
 }
 
+// markerMismatch pairs the states of both automata by walking their goto graphs in parallel from
+// every entry state; a marker (e.g. .recoveryScope) must hold in a state of the minimized
+// automaton exactly when it holds in the states it stands for.
+func markerMismatch(t0, t1 *lalr.Tables, nsyms, inputs int) string {
+	in := func(t *lalr.Tables, m, s int) bool {
+		for _, x := range t.Markers[m].States {
+			if x == s {
+				return true
+			}
+		}
+		return false
+	}
+	m0 := &tabinterp.Machine{T: t0, Terms: 0}
+	m1 := &tabinterp.Machine{T: t1, Terms: 0}
+	type pair struct{ a, b int }
+	seen := map[pair]bool{}
+	var queue []pair
+	for i := 0; i < inputs; i++ {
+		queue = append(queue, pair{i, i})
+		seen[pair{i, i}] = true
+	}
+	for len(queue) > 0 {
+		p := queue[0]
+		queue = queue[1:]
+		for m := range t0.Markers {
+			if m < len(t1.Markers) && in(t0, m, p.a) != in(t1, m, p.b) {
+				return fmt.Sprintf("marker %q: unminimized state %d marked=%v, the minimized state %d that stands for it marked=%v", t0.Markers[m].Name, p.a, in(t0, m, p.a), p.b, in(t1, m, p.b))
+			}
+		}
+		for sym := 0; sym < nsyms; sym++ {
+			a := m0.Goto(p.a, sym)
+			if a < 0 {
+				continue
+			}
+			b := m1.Goto(p.b, sym)
+			if b < 0 {
+				continue // a missing transition is reported by the lock-step runs
+			}
+			if q := (pair{a, b}); !seen[q] {
+				seen[q] = true
+				queue = append(queue, q)
+			}
+		}
+	}
+	return ""
+}
+
 func replay(c *core.Ctx, raw json.RawMessage) error {
 	var k caseT
 	if err := json.Unmarshal(raw, &k); err != nil {
 		return err
 	}
-	lg, t0, e0 := buildM(k.G, k.Inputs, k.SameAttr, false, k.Optimize, k.Marker, k.Prec)
-	_, t1, e1 := buildM(k.G, k.Inputs, k.SameAttr, true, k.Optimize, k.Marker, k.Prec)
+	lg, t0, e0 := buildM(k.G, k.Inputs, k.SameAttr, false, k.Optimize, k.Marker, k.Prec, k.MarkerPos)
+	_, t1, e1 := buildM(k.G, k.Inputs, k.SameAttr, true, k.Optimize, k.Marker, k.Prec, k.MarkerPos)
 	if e0 != nil || e1 != nil {
 		return fmt.Errorf("panic: %v %v", e0, e1)
 	}
 	m0 := &tabinterp.Machine{T: t0, Terms: k.G.T + 1, Optimized: k.Optimize}
 	m1 := &tabinterp.Machine{T: t1, Terms: k.G.T + 1, Optimized: k.Optimize}
+	if k.W == "" && k.Marker >= 0 {
+		if msg := markerMismatch(t0, t1, k.G.T+1+k.G.N, len(k.Inputs)); msg != "" {
+			return fmt.Errorf("marker-membership: %s", msg)
+		}
+	}
 	if key, msg, _ := lockstep(lg, m0, m1, k.Input, k.W); key != "" {
 		return fmt.Errorf("%s: %s", key, msg)
 	}
